@@ -278,6 +278,23 @@ def ro_array(g, probe, acc):
             if not abs(b - s) <= _a(g, s):
                 out.append((_key("stress/not-the-inverse-of-strain/array"), {"stress": s, "got": b, "allowed": _a(g, s), "strains": el}))
                 break
+        # history on ONE RambergOsgood object: a question in the elastic range / at zero (same shape), then the full
+        # lattice again - the answer must be the one it gave before (nothing remembered from the previous question)
+        kept = _ro(g)
+        _inv(g, kept.stress, np.zeros(len(el)))
+        _inv(g, kept.stress, 1e-6 * np.array(el, dtype=float))
+        st5, after = _inv(g, kept.stress, np.array(el, dtype=float))
+        _inv(g, kept.stress, 0.0)
+        st6, after_scalar = _inv(g, kept.stress, float(el[-1]))
+        acc.evaluations += 5
+        if st5 == "raised" or st6 == "raised":
+            bad = after if st5 == "raised" else after_scalar
+            out.append((_key("stress/raises-%s/after-an-elastic-question-on-the-same-object" % type(bad).__name__), {"message": str(bad)[:160]}))
+        elif not np.array_equal(np.asarray(after, dtype=float).reshape(-1), np.array(back, dtype=float)) or \
+                not abs(float(np.asarray(after_scalar, dtype=float).reshape(-1)[0]) - axis[-1]) <= _a(g, axis[-1]):
+            out.append((_key("stress/kept-object-answers-differently-after-an-elastic-question"),
+                        {"strains": el, "fresh_object": back, "kept_object": np.asarray(after, dtype=float).reshape(-1).tolist(),
+                         "scalar_after_zero": float(np.asarray(after_scalar, dtype=float).reshape(-1)[0]), "expected_scalar": axis[-1]}))
         # history on ONE RambergOsgood object with a re-used strain BUFFER: the array is refilled in place with other
         # strains (half of them) and the same object is asked again; then the *returned* array is overwritten by the caller
         # and the same question is asked once more.  Each answer must be that of a fresh object.
@@ -522,6 +539,18 @@ def hooke_arrays(g, probe, acc):
             fn = getattr(law, fn_name)
             a = [np.asarray(x, dtype=float) for x in fn(*[row * unit for row in arrs])]
             acc.evaluations += 1
+            # the same states handed over as arrays with two axes (nodes x load steps): (3, 5), (4, 5), (2, 3), (3, 3)
+            for shape in ((3, 5), (4, 5), (2, 3), (3, 3)):
+                m = shape[0] * shape[1]
+                try:
+                    a2 = [np.asarray(x, dtype=float) for x in fn(*[(row[:m] * unit).reshape(shape) for row in arrs])]
+                except Exception as e:                      # noqa: BLE001
+                    out.append((_hk("%s/%s/raises-%s-for-2d-arrays" % (name, fn_name, type(e).__name__)), {"shape": list(shape), "message": str(e)[:160]}))
+                    break
+                acc.evaluations += 1
+                if any(x2.shape != shape or not np.array_equal(x2.reshape(-1), x1[:m]) for x2, x1 in zip(a2, a)):
+                    out.append((_hk("%s/%s/2d-array-differs-from-1d-array" % (name, fn_name)), {"shape": list(shape)}))
+                    break
             for j in range(arrs.shape[1]):
                 sc = [np.asarray(x, dtype=float) for x in fn(*[float(row[j] * unit) for row in arrs])]
                 acc.evaluations += 1
